@@ -1,7 +1,7 @@
-(* C01 — Shaping is total and accounts for every input rune (partial: glue, buffer core, recursion budget).
+(* C01 — Shaping is total and accounts for every input rune (partial: glue, buffer core (all modelled operations), recursion budget).
    Property theorems only. *)
 From TV Require Import Model.ShapeGlue Spec.ShapeGlue Proofs.ShapeGlue.
-From TV Require Import Model.Buffer Spec.Buffer Proofs.Buffer Model.Recurse Proofs.Recurse.
+From TV Require Import Model.Buffer Spec.Buffer Proofs.Buffer Proofs.BufferOps Model.Recurse Proofs.Recurse.
 
 (* --- part 1: rune accounting of shaping.Shape / countClusters --- *)
 
@@ -58,29 +58,37 @@ Proof. vm_compute. repeat split. Qed.
 
 (* --- part 2: cluster discipline of harfbuzz.Buffer (levels other than Characters) --- *)
 
-(* Each covered operation (nextGlyph, nextGlyphs, skipGlyph, copyGlyph, replaceGlyphIndex, mergeClusters, swapBuffers,
-   clearOutput), applied to ANY well-formed buffer under the precondition upstream asserts, returns normally and
-   preserves WF: cursor inside the buffer, clusters of  out ++ unread input  monotone and inside [lo, hi).
-   PARTIAL: replaceGlyphs, deleteGlyph, deleteGlyphsInplace, mergeOutClusters, moveTo (with output), reverse* and the
-   flag setters are modelled and tied by correspondence, and their WF-preservation is checked by the oracle on the real
-   code, but not proved. *)
-Theorem buffer_op_preserves_wf_partial : forall lo hi o b,
-  covered o = true -> (level b =? 2) = false -> WF lo hi b = true -> pre o b = true ->
+(* EVERY modelled operation of harfbuzz/buffer.go (the 26 constructors of Model/Buffer.v `op`: nextGlyph, nextGlyphs,
+   skipGlyph, copyGlyph, replaceGlyphIndex, replaceGlyphs (= replaceGlyph, outputRune, outputGlyphIndex), deleteGlyph,
+   deleteGlyphsInplace, mergeClusters, mergeOutClusters, moveTo, shiftForward, swapBuffers, clearOutput, removeOutput,
+   clearPositions, reverseRange, Reverse, reverseClusters, setGlyphFlags, unsafeToBreak, unsafeToConcat,
+   safeToInsertTatweel, unsafeToBreakFromOutbuffer, unsafeToConcatFromOutbuffer, propagateFlags), applied to ANY
+   well-formed buffer under the precondition upstream asserts (Spec/Buffer.v `pre`), returns normally and preserves WF:
+   cursor inside the buffer, clusters of  out ++ unread input  monotone (in one of the two directions: the reversals flip
+   it) and inside [lo, hi). *)
+Theorem buffer_op_preserves_wf : forall lo hi o b,
+  (level b =? 2) = false -> WF lo hi b = true -> pre o b = true ->
   exists b', run_op o b = Ok b' /\ WF lo hi b' = true /\ (level b' =? 2) = false.
-Proof. exact covered_step. Qed.
-Print Assumptions buffer_op_preserves_wf_partial.
+Proof. exact op_step. Qed.
+Print Assumptions buffer_op_preserves_wf.
 
-(* fold_left lift: EVERY sequence of covered operations, of any length, whose preconditions hold along the run *)
-Theorem buffer_ops_preserve_wf_partial : forall lo hi os b,
-  forallb covered os = true -> (level b =? 2) = false -> WF lo hi b = true -> pres_hold os b ->
+(* fold_left lift: EVERY sequence of operations, of any length, whose preconditions hold along the run *)
+Theorem buffer_ops_preserve_wf : forall lo hi os b,
+  (level b =? 2) = false -> WF lo hi b = true -> pres_hold os b ->
   exists b', run_ops os b = Ok b' /\ WF lo hi b' = true.
 Proof. exact buffer_ops_preserve_wf_lemma. Qed.
-Print Assumptions buffer_ops_preserve_wf_partial.
+Print Assumptions buffer_ops_preserve_wf.
 
-Theorem buffer_ops_no_panic_partial : forall lo hi o b,
-  covered o = true -> (level b =? 2) = false -> WF lo hi b = true -> pre o b = true -> total (run_op o b).
+(* no Panic, no OutOfFuel: for one operation and for every operation sequence *)
+Theorem buffer_ops_no_panic : forall lo hi o b,
+  (level b =? 2) = false -> WF lo hi b = true -> pre o b = true -> total (run_op o b).
 Proof. exact buffer_ops_no_panic_lemma. Qed.
-Print Assumptions buffer_ops_no_panic_partial.
+Print Assumptions buffer_ops_no_panic.
+
+Theorem buffer_run_no_panic : forall lo hi os b,
+  (level b =? 2) = false -> WF lo hi b = true -> pres_hold os b -> total (run_ops os b).
+Proof. exact buffer_run_no_panic_lemma. Qed.
+Print Assumptions buffer_run_no_panic.
 
 (* mergeClusters(s, e) on any buffer (any contents, monotone or not): it returns normally and all glyphs of a range
    [s', e') that contains [s, e) carry the smallest cluster value of [s, e); nothing outside [s', e') changes in Info *)
@@ -120,6 +128,19 @@ Proof.
     split; [reflexivity|]. intros b2 E2. vm_compute in E2. inversion E2; subst b2. clear E2.
     split; [reflexivity|]. intros b3 _. exact I.
   - eexists. split; vm_compute; reflexivity.
+Qed.
+
+(* non-vacuity for the newly covered operations: a substitution pass (replaceGlyphs 2 -> 1, deleteGlyph, outputGlyphIndex,
+   rewinding moveTo, mergeOutClusters), the swap, in-place deletion, and the two reversals on an LTR buffer *)
+Example wf_example_all_ops :
+  let b := mkB [mkG 0 fl0 0 65 1; mkG 1 fl0 0 66 2; mkG 2 fl0 0 67 3; mkG 3 fl0 0 68 4; mkG 4 fl0 0 69 5] [] 0 true 5 5 0 true false false in
+  let os := [OReplace 2 None (Some [9]); ODelete; OReplace 0 None (Some [7]); ONext; OMoveTo 1; ONextN 2; OMergeOut 0 2;
+             OUnsafeBreakOut 1 4; OSwap; ODeleteInplace 5; ORevClusters; OReverse; ORevRange 0 3; OPropagate] in
+  WF 0 5 b = true /\ pres_hold os b
+  /\ exists b', run_ops os b = Ok b' /\ cls (info b') = [4; 0; 0] /\ WF 0 5 b' = true.
+Proof.
+  cbv zeta. split; [reflexivity|]. split; [apply pres_ok_sound; vm_compute; reflexivity|].
+  eexists. split; [vm_compute; reflexivity|]. split; reflexivity.
 Qed.
 
 (* --- part 3: the recursion budget of the OpenType layout engine (after the F1 fix) --- *)
